@@ -1,1 +1,211 @@
-/- C03 — property theorems (stub: the slice is not built yet). -/
+import GB.C03.ProofsCompile
+/-
+  C03 — property theorems. Theorems only; helper lemmas live in Proofs*.lean.
+  `Tmpl` is the parsed template (`gwbased.Parse`, property C20), `Table` the routing table as a list of
+  (binding id, HTTP method, template) in iteration order, `routesOf` its routes with `MatchAndEscape` read
+  over the AST (`matchTmpl`); `C03_compiled_matcher` shows that is what the compiled pattern computes.
+-/
+open GB GB.C03
+
+/-- The gateway's validate-then-build `unescape` is the one-pass decoder of the spec, for every byte string
+    and both modes: each captured value is produced by exactly one decoding pass. -/
+theorem C03_unescape_once (multi : Bool) (s : Bytes) : unescape multi s = decodeOnce multi s :=
+  unescape_eq_decodeOnce multi s
+
+/-- matcher ↔ `Matches`, for every template with at most one `**` and every component list. -/
+theorem C03_matcher (t : Tmpl) (hd : deepCount t.segs ≤ 1) (comps : List Bytes) (b : Captures) :
+    matchTmpl t comps t.verb = .ok b ↔ Matches t comps t.verb b := by
+  rw [matchTmpl_own_verb, matchSegs_iff hd]
+  simp [Matches]
+
+/-- a template with a verb never matches a different verb; the matcher never faults;
+    it reports a malformed escape only when a component has one. -/
+theorem C03_matcher_other (t : Tmpl) (comps : List Bytes) (verb : Bytes) :
+    (t.verb ≠ [] → verb ≠ t.verb → matchTmpl t comps verb = .notMatch) ∧
+    matchTmpl t comps t.verb ≠ .fault ∧
+    (matchTmpl t comps t.verb = .malformed → ∃ c ∈ comps, ¬ WellEscaped c) := by
+  refine ⟨?_, ?_, ?_⟩
+  · intro h1 h2
+    have : t.verb ≠ verb := fun e => h2 e.symm
+    simp [matchTmpl, h1, this]
+  · rw [matchTmpl_own_verb]; exact matchSegs_ne_fault _
+  · rw [matchTmpl_own_verb]; exact matchSegs_malformed
+
+/-- Compiler correctness, symbolic level: the op sequence `Compile` emits (`rawOps`, operands still strings),
+    run on the gateway's stack machine (`runSym`: pos/stack/concat/capture, `tailLen` = ops after the `**`),
+    computes exactly the structural matcher — for every template with at most one `**` and every component list.
+    (The resolution of pool / variable indices by `encode` + `npLoop` is tied by the differential run.) -/
+theorem C03_compiled_program (t : Tmpl) (hd : deepCount t.segs ≤ 1) (comps : List Bytes) :
+    rawOps t.segs = (symOps t.segs).map SOp.raw ∧
+    runSym (tailLenOfAtoms (atomsOf t.segs)) (symOps t.segs) comps [] [] = matchSegs t.segs comps := by
+  refine ⟨rawOps_eq_sym _, ?_⟩
+  rw [runSym_segs _ _ _ _ _ (tailOk_tailLenOfAtoms _ hd)]
+  cases matchSegs t.segs comps <;> simp
+
+/-- One route step (verb detection on the last raw segment, stripping, matching) decides `PathMatches`. -/
+theorem C03_path_matches {ι : Type} (e : ι × Bytes × Tmpl) (hd : deepCount e.2.2.segs ≤ 1)
+    (segs : List Bytes) (last : Bytes) (hlast : segs.getLast? = some last) (b : Captures) :
+    stepRoute segs last (mkR e) = .ok b ↔ PathMatches e.2.2 segs b :=
+  stepRoute_iff e hd hlast b
+
+/-- Routed iff a binding of the same HTTP method matches; the first one in table order wins;
+    the captures are those of `PathMatches` (decoded once, by `decodeOnce`). -/
+theorem C03_route_iff {ι : Type} (tbl : Table ι) (hwf : ∀ e ∈ tbl, WF e.2.2) (m p : Bytes) (i : ι) (b : Captures) :
+    routePath (routesOf tbl) m (47 :: p) = .found i b ↔ FirstMatch tbl m (splitSlash p) i b := by
+  obtain ⟨last, hlast, h⟩ := routePath_slash tbl m p
+  rw [h]
+  exact iterTbl_found_iff tbl hwf m hlast i b
+
+/-- Everything else is an error: no binding matches, and `InvalidArgument` is only given to paths without
+    the leading slash or with a malformed percent-escape in some segment. -/
+theorem C03_else {ι : Type} (tbl : Table ι) (hwf : ∀ e ∈ tbl, WF e.2.2) (m path : Bytes) (c : Code)
+    (h : routePath (routesOf tbl) m path = .error c) :
+    (∀ p, path = 47 :: p → ¬ ∃ i b, FirstMatch tbl m (splitSlash p) i b) ∧
+    (c = .invalidArgument → (∀ p, path ≠ 47 :: p) ∨ ∃ p, path = 47 :: p ∧ ∃ s ∈ splitSlash p, ¬ WellEscaped s) := by
+  constructor
+  · rintro p rfl ⟨i, b, hf⟩
+    rw [(C03_route_iff tbl hwf m p i b).2 hf] at h
+    cases h
+  · intro hc
+    subst hc
+    match path, h with
+    | [], _ => left; intro p hp; cases hp
+    | 47 :: p, h =>
+      right
+      obtain ⟨last, hlast, he⟩ := routePath_slash tbl m p
+      rw [he] at h
+      exact ⟨p, rfl, iterTbl_invalid tbl m hlast h⟩
+    | x :: p, h =>
+      by_cases hx : x = 47
+      · subst hx
+        right
+        obtain ⟨last, hlast, he⟩ := routePath_slash tbl m p
+        rw [he] at h
+        exact ⟨p, rfl, iterTbl_invalid tbl m hlast h⟩
+      · left; intro q hq; cases hq; exact hx rfl
+
+/-- A path without the leading slash is `InvalidArgument`; a well-escaped path that no binding matches is `NotFound`. -/
+theorem C03_error_codes {ι : Type} (tbl : Table ι) (hwf : ∀ e ∈ tbl, WF e.2.2) (m : Bytes) :
+    (∀ path, (∀ p, path ≠ 47 :: p) → routePath (routesOf tbl) m path = .error .invalidArgument) ∧
+    (∀ p, (∀ s ∈ splitSlash p, WellEscaped s) → (¬ ∃ i b, FirstMatch tbl m (splitSlash p) i b) →
+      routePath (routesOf tbl) m (47 :: p) = .error .notFound) := by
+  constructor
+  · intro path h; exact routePath_no_slash _ m path h
+  · intro p hw hno
+    cases hr : routePath (routesOf tbl) m (47 :: p) with
+    | found i b => exact absurd ⟨i, b, (C03_route_iff tbl hwf m p i b).1 hr⟩ hno
+    | error c =>
+      cases c with
+      | notFound => rfl
+      | invalidArgument =>
+        rcases (C03_else tbl hwf m (47 :: p) _ hr).2 rfl with h | ⟨q, hq, s, hs, hns⟩
+        · exact absurd rfl (h p)
+        · cases hq; exact absurd (hw s hs) hns
+
+/-- Decoded exactly once, end to end: for an origin-form request target as `net/http` parses it
+    (`url.ParseRequestURI`: Path = decoded, RawPath only when the default encoding differs), `RouteHTTP` routes
+    on the target's own path text — so the captures are `decodeOnce` of the raw segments of the request line
+    (`PathMatches`), never of something already decoded. -/
+theorem C03_decode_once {ι : Type} (tbl : Table ι) (hwf : ∀ e ∈ tbl, WF e.2.2) (m raw : Bytes) (u : Url)
+    (hs : ∃ r, raw = 47 :: r) (hp : parseRequestURI raw = some (some u)) (i : ι) (b : Captures) :
+    routeHTTP (routesOf tbl) m u = .found i b ↔
+      ∃ p, beforeQuery raw = 47 :: p ∧ FirstMatch tbl m (splitSlash p) i b := by
+  unfold routeHTTP
+  rw [pathChoice_parseRequestURI hs hp]
+  obtain ⟨r, rfl⟩ := hs
+  rw [beforeQuery_slash, C03_route_iff tbl hwf]
+  constructor
+  · intro h; exact ⟨_, rfl, h⟩
+  · rintro ⟨p, hp', h⟩; cases hp'; exact h
+
+/-- Hand-built URLs as the repo's tests use them (`url.URL{RawPath: x}`) are routed on `x` itself. -/
+theorem C03_rawpath_first (x path : Bytes) (hx : x ≠ []) : pathChoice ⟨path, x⟩ = x := by
+  simp [pathChoice, hx]
+
+/-- `buildPatternRoutes`: the AST-level routes of the built table are the routes of the abstract table
+    `buildTable mkEntry` (bindings in description order, templates `Parse`/`NewPattern` reject skipped). -/
+theorem C03_build_table (ts : List TargetD) : buildTable mkRouteA ts = routesOf (buildTable mkEntry ts) :=
+  buildTable_routesOf ts
+
+/-- every declared binding whose pattern can be built is in the table under its own HTTP method,
+    and a method without bindings is in the table with the default binding `POST <RPCName>`. -/
+theorem C03_build_bindings (ts : List TargetD) {T : TargetD} {S : ServiceD} {M : MethodD} {ti si mi : Nat}
+    (hT : ts[ti]? = some T) (hS : T.services[si]? = some S) (hM : S.methods[mi]? = some M) :
+    (∀ bi B t, M.bindings[bi]? = some B → B.pattern = some t → deepCount t.segs ≤ 1 →
+      (⟨ti, si, mi, some bi⟩, B.httpMethod, t) ∈ buildTable mkEntry ts) ∧
+    (∀ t, M.bindings = [] → M.dflt = some t → deepCount t.segs ≤ 1 →
+      (⟨ti, si, mi, none⟩, post, t) ∈ buildTable mkEntry ts) :=
+  ⟨fun _ _ _ hB hp h1 => binding_mem_table ts hT hS hM hB hp h1,
+   fun _ hb hd h1 => default_mem_table ts hT hS hM hb hd h1⟩
+
+/-- Default binding reachability: a method without bindings whose RPC name is `/svc/Method` (slash-free parts)
+    is reachable at `POST /svc/Method`: the request is routed (never NotFound), to the first POST binding in table
+    order matching that path — which is the default binding itself unless an earlier binding also matches it. -/
+theorem C03_default (ts : List TargetD) (hwf : ∀ e ∈ buildTable mkEntry ts, WF e.2.2)
+    {T : TargetD} {S : ServiceD} {M : MethodD} {ti si mi : Nat}
+    (hT : ts[ti]? = some T) (hS : T.services[si]? = some S) (hM : S.methods[mi]? = some M)
+    (hb : M.bindings = []) (svc meth : Bytes)
+    (hd : M.dflt = some ⟨[.plain (.lit svc), .plain (.lit meth)], []⟩)
+    (h1 : svc ≠ eof) (h2 : meth ≠ eof) (h3 : ∀ c ∈ svc, c ≠ 47) (h4 : ∀ c ∈ meth, c ≠ 47) :
+    ∃ i b, routePath (routesOf (buildTable mkEntry ts)) post (47 :: (svc ++ 47 :: meth)) = .found i b ∧
+      FirstMatch (buildTable mkEntry ts) post [svc, meth] i b ∧
+      ((∀ e ∈ buildTable mkEntry ts, e.2.1 = post → (∃ b', PathMatches e.2.2 [svc, meth] b') → e.1 = ⟨ti, si, mi, none⟩) →
+        i = ⟨ti, si, mi, none⟩) := by
+  have hmem := default_mem_table ts hT hS hM hb hd (by simp [deepCount, atomsOf, Seg.atoms, VSeg.isDeep])
+  have hsplit : splitSlash (svc ++ 47 :: meth) = [svc, meth] := by
+    rw [splitSlash_append _ h3, splitSlash_noslash h4]
+  obtain ⟨i, b, hf⟩ := exists_firstMatch (buildTable mkEntry ts) post [svc, meth]
+    ⟨_, hmem, rfl, [], default_pathMatches h1 h2⟩
+  refine ⟨i, b, ?_, hf, ?_⟩
+  · rw [C03_route_iff _ hwf, hsplit]; exact hf
+  · intro huniq
+    obtain ⟨pre, t, post', htbl, hm, _⟩ := hf
+    exact huniq (i, post, t) (by rw [htbl]; simp) rfl ⟨b, hm⟩
+
+/-- What fix D3 removed: with bindings `[GET /a/*:get, GET /a/*]` the path `/a/:get` was answered NotFound by the
+    first route's `verbIdx == 0` exit although the second binding matches it (`*` = `:get`). -/
+theorem C03_prefix_verb_abort :
+    let tbl : Table Nat := [(0, [71, 69, 84], ⟨[.plain (.lit [97]), .plain .star], [103, 101, 116]⟩),
+                            (1, [71, 69, 84], ⟨[.plain (.lit [97]), .plain .star], []⟩)]
+    routeHTTPPreFix (routesOf tbl) [71, 69, 84] ⟨[], [47, 97, 47, 58, 103, 101, 116]⟩ = .error .notFound ∧
+    routeHTTP (routesOf tbl) [71, 69, 84] ⟨[], [47, 97, 47, 58, 103, 101, 116]⟩ = .found 1 [] := by
+  decide
+
+/-- What fix D2 removed: `/v/%2541` parses to Path `/v/%41`, RawPath empty; routing on Path decodes again. -/
+theorem C03_prefix_double_decode :
+    setPath [47, 118, 47, 37, 50, 53, 52, 49] = some ⟨[47, 118, 47, 37, 52, 49], []⟩ ∧
+    pathChoicePreFix ⟨[47, 118, 47, 37, 52, 49], []⟩ = [47, 118, 47, 37, 52, 49] ∧
+    pathChoice ⟨[47, 118, 47, 37, 52, 49], []⟩ = [47, 118, 47, 37, 50, 53, 52, 49] := by
+  decide
+
+/-- and what the double decoding did to the captured value: `/v/%2541` bound `x = "A"` instead of `x = "%41"`. -/
+theorem C03_prefix_double_decode_value :
+    let tbl : Table Nat := [(0, [71, 69, 84], ⟨[.plain (.lit [118]), .var [120] [.star]], []⟩)]
+    routeHTTPPreFix (routesOf tbl) [71, 69, 84] ⟨[47, 118, 47, 37, 52, 49], []⟩ = .found 0 [([120], [65])] ∧
+    routeHTTP (routesOf tbl) [71, 69, 84] ⟨[47, 118, 47, 37, 52, 49], []⟩ = .found 0 [([120], [37, 52, 49])] := by
+  decide
+
+/-! Non-vacuity: a three-binding table, a request line with `%2F`, `%25` and a verb. -/
+section
+def exTbl : Table Nat :=
+  [ (0, [71, 69, 84], ⟨[.plain (.lit [97]), .plain .star], [103]⟩),                       -- GET /a/*:g
+    (1, [71, 69, 84], ⟨[.plain (.lit [97]), .var [120] [.star], .var [121] [.deep]], [103]⟩), -- GET /a/{x}/{y=**}:g
+    (2, [71, 69, 84], ⟨[.plain (.lit [97]), .var [122] [.deep]], []⟩) ]                    -- GET /a/{z=**}
+
+example : ∀ e ∈ exTbl, WF e.2.2 := by
+  intro e he
+  simp only [exTbl, List.mem_cons, List.not_mem_nil, or_false] at he
+  rcases he with rfl | rfl | rfl <;>
+    exact ⟨by decide, by
+      intro p hp
+      simp only [atomsOf, List.flatMap_cons, List.flatMap_nil, Seg.atoms, List.cons_append, List.nil_append,
+        List.mem_cons, List.not_mem_nil, or_false] at hp
+      rcases hp with rfl | rfl | rfl <;> simp [VSeg.litsOk, wellEscaped_iff, litText, eof, escapesOk], by
+      simp [wellEscaped_iff, escapesOk]⟩
+
+/-- `GET /a/b%2Fc/d%2Fe%2541:g` — binding 1 wins (binding 0 has too few segments); `x` is decoded fully
+    (`b/c`), `y` keeps the reserved `/` encoded and decodes `%25` once (`d%2Fe%41`). -/
+example : routePath (routesOf exTbl) [71, 69, 84]
+      [47, 97, 47, 98, 37, 50, 70, 99, 47, 100, 37, 50, 70, 101, 37, 50, 53, 52, 49, 58, 103] =
+    .found 1 [([120], [98, 47, 99]), ([121], [100, 37, 50, 70, 101, 37, 52, 49])] := by decide
+end
